@@ -2,6 +2,9 @@ package main
 
 import (
 	"encoding/json"
+	"strings"
+	"unicode"
+	"unicode/utf8"
 
 	"github.com/fabiolb/fabio/route"
 	"verif/harness/hx"
@@ -54,6 +57,91 @@ func applyDefs(ds []rt.Def) map[string]interface{} {
 	return map[string]interface{}{"table": route.VerifDump(t, false)}
 }
 
+// expressible: can the command language carry this definition? (rt.Def.Line writes it, Parse must read it back as
+// the same definition.) Tokens are non-empty where the grammar wants one and free of white space and quotes; a
+// `del` without tags names a service, a `weight` without service names tags; tags are trimmed and carry no comma
+// or quote; option keys carry no '='.
+func expressible(d *rt.Def) bool {
+	tokOK := func(s string) bool {
+		for _, c := range s {
+			if unicode.IsSpace(c) || c == '"' {
+				return false
+			}
+		}
+		return s != "" && utf8.ValidString(s)
+	}
+	tagsOK := func(ts []string) bool {
+		if len(ts) == 1 && ts[0] == "" {
+			return false
+		}
+		for _, t := range ts {
+			if strings.ContainsAny(t, "\",\n\r") || strings.TrimSpace(t) != t {
+				return false
+			}
+		}
+		return true
+	}
+	if !tagsOK(d.Tags) {
+		return false
+	}
+	switch d.Cmd {
+	case "add":
+		if !tokOK(d.Service) || !tokOK(d.Src) || !tokOK(d.Dst) || (d.WText != "" && !tokOK(d.WText)) {
+			return false
+		}
+		for _, o := range d.Opts {
+			if len(o) != 2 || strings.Contains(o[0], "=") || (o[0] == "" && o[1] == "") || (o[0]+o[1] != "" && !tokOK(o[0]+"="+o[1])) {
+				return false
+			}
+		}
+		return true
+	case "del":
+		if len(d.Tags) > 0 {
+			// src and dst are not written (delRoute does not look at them either when tags are given)
+			return d.Service == "" || tokOK(d.Service)
+		}
+		if !tokOK(d.Service) || (d.Src != "" && !tokOK(d.Src)) || (d.Dst != "" && !tokOK(d.Dst)) {
+			return false
+		}
+		return d.Dst == "" || d.Src != ""
+	case "weight":
+		if !tokOK(d.Src) || !tokOK(d.WText) {
+			return false
+		}
+		if d.Service == "" {
+			return len(d.Tags) > 0
+		}
+		return tokOK(d.Service)
+	}
+	return false
+}
+
+func expressibleAll(ds []rt.Def) bool {
+	for i := range ds {
+		if !expressible(&ds[i]) {
+			return false
+		}
+	}
+	return len(ds) > 0
+}
+
+// textOutcome is NewTable on a text, in the shape applyDefs uses (a syntax error is its own class).
+func textOutcome(text string) (out map[string]interface{}) {
+	defer func() {
+		if p := recover(); p != nil {
+			out = map[string]interface{}{"panic": true}
+		}
+	}()
+	t, err := route.VerifNewTable(text)
+	if err != nil {
+		if reLineErr.MatchString(err.Error()) {
+			return map[string]interface{}{"error": "parse: " + err.Error()}
+		}
+		return map[string]interface{}{"error": errClass(err)}
+	}
+	return map[string]interface{}{"table": route.VerifDump(t, false)}
+}
+
 func runScript(in *scriptIn) (interface{}, error) {
 	out := applyDefs(in.Defs)
 	// variant 1: the last add, repeated immediately
@@ -82,6 +170,11 @@ func runScript(in *scriptIn) (interface{}, error) {
 	}
 	out["recased"] = applyDefs(rec)
 	out["recasedChanged"] = changed
+	// variant 3: the same commands written in the command language and read by NewTable (Parse + the same three
+	// handlers): the text entry point and the structured one (NewTableCustom, the custom backend) must agree
+	if expressibleAll(in.Defs) {
+		out["viaText"] = textOutcome(rt.Text(in.Defs))
+	}
 	out["oracle"] = in.Oracle
 	out["defs"] = in.Defs // with the exact rationals of the weights filled in
 	return out, nil
